@@ -33,11 +33,16 @@ func plainPath(s string) bool {
 	return true
 }
 
-func writeCase(dir string, l *Lineage) bool {
+// the spellings Maven is shown (the value-preserving ones; booleans stay lower case because Maven's
+// model keeps <optional> as the string it read)
+var mavenStyles = []int{stEmptySelf, stEmptyBlank | stBlanks, stCDATA | stComment, stCharRef | stBlanks, stUnknown, stDupProp | stEmptySelf,
+	stEmptySelf | stBlanks | stCDATA | stCharRef | stComment | stUnknown | stDupProp}
+
+func writeCase(dir string, l *Lineage, st int) bool {
 	if err := os.MkdirAll(dir, 0o755); err != nil {
 		return false
 	}
-	if err := os.WriteFile(filepath.Join(dir, "child.pom"), []byte(l.Root.Render()), 0o644); err != nil {
+	if err := os.WriteFile(filepath.Join(dir, "child.pom"), []byte(l.Root.RenderStyle(st)), 0o644); err != nil {
 		return false
 	}
 	seen := map[Key]bool{}
@@ -54,7 +59,7 @@ func writeCase(dir string, l *Lineage) bool {
 		if err := os.MkdirAll(p, 0o755); err != nil {
 			return false
 		}
-		if err := os.WriteFile(filepath.Join(p, k.A+"-"+k.V+".pom"), []byte(l.Repo[i].Render()), 0o644); err != nil {
+		if err := os.WriteFile(filepath.Join(p, k.A+"-"+k.V+".pom"), []byte(l.Repo[i].RenderStyle(st)), 0o644); err != nil {
 			return false
 		}
 	}
@@ -92,9 +97,17 @@ func mavenValidate(c *fw.Ctx, cases []*Lineage) {
 	root := filepath.Join(base, fmt.Sprintf("cases-%s-%d", c.Tier, c.Seed))
 	os.RemoveAll(root)
 	var kept []*Lineage
-	for _, l := range cases {
-		if writeCase(filepath.Join(root, fmt.Sprint(len(kept))), l) {
+	styled := 0
+	for i, l := range cases {
+		st := 0
+		if i%2 == 1 { // every second lineage in another spelling
+			st = mavenStyles[(i/2)%len(mavenStyles)]
+		}
+		if writeCase(filepath.Join(root, fmt.Sprint(len(kept))), l, st) {
 			kept = append(kept, l)
+			if st != 0 {
+				styled++
+			}
 		}
 	}
 	ctx, cancel := context.WithTimeout(context.Background(), 600*time.Second)
@@ -164,8 +177,8 @@ func mavenValidate(c *fw.Ctx, cases []*Lineage) {
 			}
 		}
 	}
-	c.Note(fmt.Sprintf("ref_validation: Maven %s model builder present; %d lineages compared (OS seen by Maven: %s/%s): %d agree field for field, %d rejected by both, %d validity mismatches, %d differ",
-		filepath.Base(jars[0]), len(kept), env.OSName, env.OSArch, agree, bothInvalid, validity, differ))
+	c.Note(fmt.Sprintf("ref_validation: Maven %s model builder present; %d lineages compared, %d of them in a non-canonical XML spelling (empty-element forms, blanks, CDATA, character references, comments, unknown elements/attributes, duplicate properties) (OS seen by Maven: %s/%s): %d agree field for field, %d rejected by both, %d validity mismatches, %d differ",
+		filepath.Base(jars[0]), len(kept), styled, env.OSName, env.OSArch, agree, bothInvalid, validity, differ))
 	for _, e := range examples {
 		c.Note("ref_validation " + e)
 	}
